@@ -35,7 +35,7 @@ def run(c):
         c.tlc_model("FormulationsModel", workers=8)                                                      # 4x4, b=2, all
 
     def models_b():
-        c.tlc_model("FormulationsModel", constants={"R": 3, "C": 6, "B": 3, "STEP": 1 if th else 13}, workers=6)
+        c.tlc_model("FormulationsModel", constants={"R": 3, "C": 6, "B": 3, "STEP": 1 if th else 29}, workers=6)
         c.tlc_model("FormulationsModel", constants={"R": 2, "C": 6, "B": 2}, workers=4)
         c.tlc_model("FormulationsModel", constants={"R": 3, "C": 3, "B": 3}, workers=2)
         c.tlc_model("FormulationsModel", cfg="FormulationsComplex.cfg", workers=4)
